@@ -26,11 +26,15 @@ def register(R, tier="quick"):
         I.assume(s.n >= 0)
         return s
 
-    def setup(I, **kw):
+    def setup(I, with_limit=False, **kw):
         a, b = mkseq(I, "a"), mkseq(I, "b")
         i = z3.Int("bi")
         I.assume(z3.ForAll([i], z3.Implies(i >= 0, z3.And(OSA(i, 0) == i, OSA(0, i) == i))))
-        return {"seq1": a, "seq2": b, "limit": None}
+        lim = None
+        if with_limit:
+            lim = z3.Int("limit")
+            I.assume(lim >= 0)
+        return {"seq1": a, "seq2": b, "limit": lim}
 
     def define_at(I, env, i, j):
         """assume the defining equation of OSA at cell (i, j), i, j >= 1"""
@@ -84,6 +88,58 @@ def register(R, tier="quick"):
     def hint(I, env):
         i, j = z3.Int("hi"), z3.Int("hj")
         return [env["seq1"].n == 0, env["seq2"].n == 0, z3.ForAll([i, j], OSA(i, j) == i + j)]
+
+    def osa_cell(a, b, i, j):
+        """right-hand side of the defining equation at (i, j)"""
+        cost = z3.If(z3.Select(a, i - 1) != z3.Select(b, j - 1), 1, 0)
+        m = OSA(i - 1, j) + 1
+        for c in (OSA(i, j - 1) + 1, OSA(i - 1, j - 1) + cost):
+            m = z3.If(c < m, c, m)
+        tr = z3.And(i >= 2, j >= 2, z3.Select(a, i - 1) == z3.Select(b, j - 2), z3.Select(a, i - 2) == z3.Select(b, j - 1))
+        return z3.If(z3.And(tr, OSA(i - 2, j - 2) + 1 < m), OSA(i - 2, j - 2) + 1, m)
+
+    def rowmin_lemma():
+        """Row-minimum lemma (pure fact about OSA, by induction on the row and, inside a row, on the column):
+        if every cell of row i (columns 0..n) exceeds L then so does every cell of row i+1.
+        base:  OSA(i+1, 0) > L          step:  OSA(i+1, j-1) > L  =>  OSA(i+1, j) > L    (1 <= j <= n)"""
+        a, b = z3.Array("la", IntS, IntS), z3.Array("lb", IntS, IntS)
+        i, j, n, L, q = z3.Ints("li lj ln lL lq")
+        base_ax = z3.ForAll([q], z3.Implies(q >= 0, z3.And(OSA(q, 0) == q, OSA(0, q) == q)))
+        P = z3.ForAll([q], z3.Implies(z3.And(0 <= q, q <= n), OSA(i, q) > L))
+        defs = z3.And(OSA(i + 1, j) == osa_cell(a, b, i + 1, j),
+                      z3.Implies(z3.And(i >= 1, j >= 2), OSA(i, j - 1) == osa_cell(a, b, i, j - 1)))
+        return [("base", z3.Implies(z3.And(base_ax, i >= 0, n >= 0, P), OSA(i + 1, 0) > L)),
+                ("step", z3.Implies(z3.And(base_ax, i >= 0, 1 <= j, j <= n, defs, P, OSA(i + 1, j - 1) > L), OSA(i + 1, j) > L))]
+
+    R.lemma("editdistance/row-minimum", ["C19"], rowmin_lemma,
+            note="every cell of row i above L => every cell of row i+1 above L (base and step of the column induction); "
+                 "by induction on rows: once a whole row exceeds the limit, the final distance does")
+
+    WIT = z3.Function("osa_rowmin_witness", IntS, IntS, IntS, IntS)
+
+    def post_limit(I, env):
+        n1, n2 = I.old_env["seq1"].n, I.old_env["seq2"].n
+        res, L = to_z3(env["result"]), env["limit"]
+        loc = I.root_frame.env
+        if "x" in loc:
+            # instance of the row-minimum lemma (lemma editdistance/row-minimum + induction over the remaining rows) at
+            # the row the code was working on: a final distance <= L needs a cell <= L in that row
+            x = to_z3(loc["x"])
+            w = WIT(x + 1, L, n1)
+            I.assume(z3.Implies(z3.And(n1 >= x + 1, OSA(n1, n2) <= L), z3.And(0 <= w, w <= n2, OSA(x + 1, w) <= L)))
+        return z3.And(z3.Implies(OSA(n1, n2) <= L, res == OSA(n1, n2)), z3.Implies(OSA(n1, n2) > L, res > L))
+
+    R.contract(LV + ":damerau_levenshtein", label=LV + ":damerau_levenshtein#limit", props=["C19"],
+               setup=lambda I: setup(I, with_limit=True), cover_hint=hint,
+               ensures=[post_limit],
+               loops={0: LoopSpec(index="_x", inv=[outer_inv], havoc_as={"oneago": fresh_row}),
+                      1: LoopSpec(index="_y", inv=[inner_inv])},
+               canaries=[Canary("early-exit-ignores-first-column", "[0] * len(seq2) + [x + 1]", "[0] * len(seq2) + [limit + 1]"),
+                         Canary("early-exit-too-eager", "min(thisrow) > limit", "min(thisrow) >= limit")],
+               assumptions=["induction over the remaining rows using lemma editdistance/row-minimum (base and step are "
+                            "discharged; the induction principle itself is the trusted step)"],
+               note="with a limit: a distance <= limit is returned exactly, a distance > limit is reported as some value > "
+                    "limit - so `distance(w, text, limit=maxdist) <= maxdist` (terms_within, FuzzyTerm) is exact")
 
     R.contract(LV + ":damerau_levenshtein", props=["C19"], setup=setup, cover_hint=hint,
                ensures=[lambda I, env: to_z3(env["result"]) == OSA(I.old_env["seq1"].n, I.old_env["seq2"].n)],
